@@ -163,13 +163,13 @@ func runTitles(c *driver.Ctx, sb *sandbox, form, state, opt, scen string) {
 				}
 				if pic := sb.picture(); pic != sb.canon {
 					c.AddViolation(driver.Violation{Tier: c.Tier, Job: c.Job, Scenario: scen,
-						Sig:    "title: object outside the working directory changed by a push with " + class,
+						Sig:    changedSig(class, outside),
 						Detail: detail + "\nchanged outside the working directory:\n" + diffPictures(sb.canon, pic)})
 					sb.repair()
 				}
 				if form == "root" && !rootClean() {
 					c.AddViolation(driver.Violation{Tier: c.Tier, Job: c.Job, Scenario: scen,
-						Sig:    "title: object outside the working directory changed by a push with " + class,
+						Sig:    changedSig(class, outside),
 						Detail: detail + "\ncreated at the file-system root: " + strings.Join(rootGuard, " or ")})
 					for _, p := range rootGuard {
 						os.RemoveAll(p)
@@ -185,4 +185,11 @@ func runTitles(c *driver.Ctx, sb *sandbox, form, state, opt, scen string) {
 			}
 		}
 	}
+}
+
+func changedSig(class string, lexicallyOutside bool) string {
+	if lexicallyOutside {
+		return "title: object outside the working directory changed by a push with " + class + " that points outside it"
+	}
+	return "title: " + class + " that lexically stays inside the working directory wrote outside it ('..' after a pre-existing internal symbolic link is not cleaned away)"
 }
